@@ -16,7 +16,7 @@ N9  a local bound exactly once to a call-free expression over names that are nev
 N10 `t = E` (E may contain calls) directly followed by a statement whose header expression (if-test, return value,
     assigned value, expression statement) reads t exactly once, before any call of that header is made, t being read
     nowhere else: E is substituted there and the binding dropped (evaluation order is unchanged)
-N11 `a, b = X, Y` with as many call-free values as targets, none of which mentions a target  ->  `a = X`, `b = Y`
+N11 `a, b = X, Y` with as many values as (plain local) targets, no value mentioning a target  ->  `a = X`, `b = Y`
 N12 an f-string made only of literal text and plain `{expr}` fields  ->  `"...{}...".format(expr, ...)`
 N13 `[f(x) for x in xs]` / `(f(x) for x in xs)` (one plain name f applied to the loop variable, no condition)  ->  `map(f, xs)`
     where the result is only iterated (argument of join / list / tuple / set / sorted / a for loop)
@@ -231,7 +231,8 @@ class _N11(ast.NodeTransformer):
     def visit_Assign(self, node):
         if len(node.targets) == 1 and isinstance(node.targets[0], (ast.Tuple, ast.List)) and isinstance(node.value, (ast.Tuple, ast.List)) \
                 and len(node.targets[0].elts) == len(node.value.elts) and all(isinstance(t, ast.Name) for t in node.targets[0].elts) \
-                and all(_pure(v) or isinstance(v, ast.Constant) for v in node.value.elts):
+                and not any(isinstance(y, (ast.Yield, ast.YieldFrom, ast.Await, ast.NamedExpr, ast.Starred)) for v in node.value.elts for y in ast.walk(v)):
+            # values are evaluated left to right either way; only local names are bound, and none of them is read by a later value
             names = {t.id for t in node.targets[0].elts}
             if not any(isinstance(y, ast.Name) and y.id in names for v in node.value.elts for y in ast.walk(v)):
                 out = []
